@@ -29,7 +29,7 @@ using sim::Rng;
 
 enum { C_PART = 0, C_QLEN, C_RECYCLE };
 enum { P_LRU_SET = 0, P_LRU_MAP, P_SPLAY_SET, P_SPLAY_MULTI, P_SPLAY_SET_TRACKED, P_SPLAY_MULTI_TRACKED, P_LRU_SET_HEAP, P_LRU_MAP_HEAP, P_N };
-enum { L_PUT = 0, L_TOUCH, L_TOUCH_IF, L_GET, L_GET_TOUCH, L_ERASE, L_ERASE_IF, L_EXISTS, L_POP, L_CLEAR, L_N };
+enum { L_PUT = 0, L_TOUCH, L_TOUCH_IF, L_GET, L_GET_TOUCH, L_ERASE, L_ERASE_IF, L_EXISTS, L_POP, L_CLEAR, L_PUT_OWN_VALUE, L_N };
 enum { S_INSERT = 0, S_ERASE, S_EXISTS, S_FIND, S_CLEAR, S_ERASE_NODE, S_N };
 const uint32_t RECYCLE[] = {0, 300, 700, 1000};
 constexpr int KEYS = 8;
@@ -79,7 +79,7 @@ void run_lru(const Workload& w, Result& res) {
     auto map = std::make_unique<Map>();
     std::list<int> order;                // front = most recently put or touched
     std::map<int, int> value;
-    static const char* names[] = {"put", "touch", "touch_if_exists", "get", "get_touch", "erase", "erase_if_exists", "exists", "pop", "clear"};
+    static const char* names[] = {"put", "touch", "touch_if_exists", "get", "get_touch", "erase", "erase_if_exists", "exists", "pop", "clear", "put_own_value"};
     int step = 0;
     auto present = [&](int k) { return std::find(order.begin(), order.end(), k) != order.end(); };
     auto to_front = [&](int k) { order.remove(k); order.push_front(k); };
@@ -94,6 +94,10 @@ void run_lru(const Workload& w, Result& res) {
         try {
             switch (code) {
             case L_PUT: if (IsMap) map->put(K_(k), V_(v)); else set->put(K_(k)); to_front(k); value[k] = v; break;
+            // put(k, get(k)): the value argument is the reference to the stored value of the same key
+            case L_PUT_OWN_VALUE:
+                if (IsMap && had) { map->put(K_(k), map->get(K_(k))); to_front(k); res.probe("put_with_reference_to_own_value"); }
+                break;
             case L_TOUCH: if (IsMap) map->touch(K_(k)); else set->touch(K_(k)); if (had) to_front(k); break;
             case L_TOUCH_IF: {
                 bool rv = IsMap ? map->touch_if_exists(K_(k)) : set->touch_if_exists(K_(k));
@@ -248,6 +252,11 @@ void run_splay(const Workload& w, Result& res) {
             tree->traverse_preorder([&seq](const K& key) { seq.push_back(keyval(key)); });
             std::vector<int> exp(model.begin(), model.end());
             if (seq != exp) res.fail("splay_order", "in-order key sequence differs from the model (" + std::to_string(seq.size()) + " vs " + std::to_string(exp.size()) + " keys), " + at);
+            // the same traversal with a function object that keeps what it saw in its own state
+            struct Collector { mutable std::vector<int> seen; void operator()(const K& key) const { seen.push_back(keyval(key)); } };
+            Collector col;
+            tree->traverse_preorder(col);
+            if (res.ok && col.seen != exp) res.fail("splay_order", "a collecting function object passed to the traversal saw " + std::to_string(col.seen.size()) + " keys, the model has " + std::to_string(exp.size()) + ", " + at);
         }
         if (res.ok && !Dup && !tree->check()) res.fail("splay_invalid_tree", "check() failed, " + at);
         if (tracked && res.ok) {
@@ -281,7 +290,11 @@ void execute(const Workload& w, Result& res) {
     case P_SPLAY_SET_TRACKED: res.probe("splay_set_heap_keys"); run_splay<sim::Tracked, TLess, false>(w, res); break;
     default: res.probe("splay_multiset_heap_keys"); run_splay<sim::Tracked, TLess, true>(w, res); break;
     }
-    sim::alloc_env().finish();
+    // "frees every node exactly once" is said of the splay tree; for the LRU caches a node that is never returned
+    // is counted, not judged (double / foreign release and writes to released nodes are judged everywhere)
+    const bool is_lru = part <= P_LRU_MAP || part >= P_LRU_SET_HEAP;
+    sim::alloc_env().finish(!is_lru);
+    if (is_lru && sim::alloc_env().leaked_blocks()) res.probe("beyond_c17.lru_node_not_returned", sim::alloc_env().leaked_blocks());
     for (auto& e : sim::alloc_env().errors()) res.fail("alloc_ledger", e);
     if (sim::alloc_env().recycled()) res.probe("recycled_blocks", sim::alloc_env().recycled());
 }
